@@ -104,6 +104,12 @@ func (sfc *StructFieldsCopy) createFieldSnippet(f *types.Var) snippet.Snippet {
 			// always gen
 			fc.HasDeepCopyInto = true
 			fc.HasDeepCopy = true
+
+			// the methods generated for a map type take and return the map itself, all others a pointer;
+			// decide from the type, not from whether an earlier run has already written the methods
+			if _, isMap := x.Underlying().(*types.Map); isMap {
+				fc.PtrResultOrParam = false
+			}
 		}
 		if fc.PtrResultOrParam && fc.HasDeepCopyInto {
 			return snippet.T(`
